@@ -151,12 +151,14 @@ STR_POOLS = {
     'latin1': 'éèüñßÆøÿ¡¿£©®±µ¶',
     'bmp': '中文日本語한국어ΩλЖक€→√∞',
     'astral': '😀🚀𝄞𐍈🂡',
+    # text that is not in Unicode normal form C: base letter + combining mark, marks out of canonical order, singletons, jamo
+    'nonnfc': ['e\u0301', 'a\u0323\u0302', 'a\u0302\u0323', '\u212b', '\u2126', '\u1100\u1161', 'n\u0303', '\u2000'],
 }
 ESCAPES = ['\\n', '\\t', '\\r', '\\\\', '\\0', '\\101', '\\33', '\\7', '\\012', '\\N{BULLET}', '\\a', '\\b', '\\f', '\\v', '\\x41', '\\x7f', '\\"', "\\'", '\\u00e9', '\\u4e2d', '\\xe9', '\\xff', '\\U0001f600']
 
 
 def rand_string(r):
-    classes = r.choice((['ascii'], ['ascii'], ['ascii', 'esc'], ['latin1'], ['bmp'], ['astral'], ['ascii', 'latin1', 'esc'],
+    classes = r.choice((['ascii'], ['ascii'], ['ascii', 'esc'], ['latin1'], ['bmp'], ['astral'], ['nonnfc'], ['ascii', 'nonnfc'], ['ascii', 'latin1', 'esc'],
                         ['ascii', 'bmp', 'astral', 'esc'], ['esc']))
     out = []
     for _ in range(r.randint(1, 12)):
@@ -456,7 +458,7 @@ def run_scenario(scen, keep_events=False):
             continue
         if kind == 'str':
             classes = meta['classes']
-            nonascii = any(c in classes for c in ('latin1', 'bmp', 'astral')) or any(e in scen['items'][1]['text'] for e in ('\\u', '\\U', '\\xe9', '\\xff'))
+            nonascii = any(c in classes for c in ('latin1', 'bmp', 'astral', 'nonnfc')) or any(e in scen['items'][1]['text'] for e in ('\\u', '\\U', '\\xe9', '\\xff'))
             key = 'non-ascii' if any(ord(ch) > 127 for ch in scen['items'][1]['text']) else ('escape' if '\\' in scen['items'][1]['text'] else 'ascii')
             if not out['ok']:
                 res.violate('string-refused', key, 'string literal refused (%s: %s); text=%r' % (out.get('exc'), (out.get('msg') or '')[:80], scen['items'][1]['text']))
